@@ -212,6 +212,7 @@ Proof.
   - (* L_re_inv_real *) exact Cre_inv_real.
   - (* L_root_prim *) exact root_prim_R.
   - (* L_ltb_irrefl *) intros x. destruct (Rlt_dec (fst x) (fst x)) as [H|H]; [exfalso; exact (Rlt_irrefl _ H)|reflexivity].
+  - (* L_trunc_0 *) change (Int_part (INR 0) = 0%Z). apply Int_part_INR.
 Qed.
 
 Print Assumptions ROps_laws.
